@@ -419,6 +419,13 @@ def unit_conv(src, prop, angle_kind='Rad'):
     else:
         # the statement names from_angle_x/y/z as the reference rotation: they are verified here too
         own = lambda im, f: im is not None and ('Euler' in im.header or f.name in ('from_angle_x', 'from_angle_y', 'from_angle_z'))
+    if angle_kind != 'Rad':
+        # the Deg instantiation of rule R3 owns only code that is generic in the angle type `A`; everything else (e.g.
+        # From<Quaternion> for Euler<Rad<S>>) is the same text as in the Rad unit and is verified there
+        own_rad = own
+        generic_in_a = lambda im, f: re.search(r'(?<![A-Za-z0-9_])A(?![A-Za-z0-9_])', ((im.generics or '') if im is not None else '') + ' ' + src.p.text(f.sig[0], f.sig[1])) is not None
+        own = lambda im, f: own_rad(im, f) and generic_in_a(im, f)
+        u.close_exclude = lambda im, f: im is not None and 'Euler<Rad<S>>' in im.header
     u.assume_pred = lambda im, f: not own(im, f)
     if angle_kind == 'Rad':
         u.lemma_texts.append(sym.HELPER_LEMMAS)
